@@ -58,9 +58,13 @@ def _resolve1(fn, e: ast.AST) -> ast.AST:
 
 
 def _link_function(prog) -> tuple[FuncInfo, ast.Compare]:
-    for fi in prog.funcs:
-        if not fi.module.name.startswith("yaw.correlation"):
+    from ..inline import inlined
+
+    for fi0 in prog.funcs:
+        if not fi0.module.name.startswith("yaw.correlation") or fi0.parent is not None:
             continue
+        # closures, private helpers and comprehensions are brought into the plain statement form the rule reads
+        fi = inlined(prog, fi0, desugar=True, keep={"get_max_angle", "check_patch_conistency"})
         for x in walk_no_nested(fi.node):
             if isinstance(x, ast.Compare) and len(x.ops) == 1 and isinstance(x.ops[0], (ast.Lt, ast.LtE, ast.Gt, ast.GtE)):
                 sides = [_resolve1(fi.node, x.left), _resolve1(fi.node, x.comparators[0])]
@@ -156,8 +160,15 @@ def rule_r1(prog, res) -> None:
         if depends_on(fn, e, lambda y: isinstance(y, ast.Call) and (dotted(y.func) or "").split(".")[-1] in ("get_max_angle",)) or "angle" in a:
             kinds[a] = "angle"
         elif depends_on(fn, e, lambda y: isinstance(y, ast.Call) and isinstance(y.func, ast.Attribute) and y.func.attr == "get_radii"):
-            # loop element of the radii vector = radius of the current patch
-            is_elem = any(isinstance(x, ast.For) and a in _targets(x.target) for x in walk_no_nested(fn))
+            # loop element of the radii vector = radius of the current patch (possibly through a parameter of an expanded helper)
+            root = a
+            for _ in range(4):
+                vals_ = [v for v in all_def_values(fn, root) if v is not None]
+                if len(vals_) == 1 and isinstance(vals_[0], ast.Name):
+                    root = vals_[0].id
+                else:
+                    break
+            is_elem = any(isinstance(x, ast.For) and root in _targets(x.target) for x in walk_no_nested(fn))
             kinds[a] = "patch_radius" if is_elem else "radii"
         else:
             kinds[a] = "other"
